@@ -16,17 +16,22 @@ pub const KINDS: [&str; 22] = [
 
 #[derive(Clone, Debug)]
 pub struct Rec {
-    /// aircraft index 0..6
-    pub ac: u8,
+    /// aircraft index: 0..6 the six addresses that share prefixes and suffixes, above that a crowd
+    pub ac: u16,
     pub kind: u8,
     /// value selector within the aircraft's own alphabet
     pub val: u16,
     pub ts: f64,
 }
 
-pub fn addr_of(ac: u8) -> u32 {
+pub fn addr_of(ac: u16) -> u32 {
     // addresses sharing long prefixes / suffixes on purpose (a table keyed by a prefix would merge them)
-    [0x4840d6, 0x4840d7, 0x4840e6, 0x5840d6, 0xa840d6, 0x000001][ac as usize % 6]
+    if ac < 6 {
+        [0x4840d6, 0x4840d7, 0x4840e6, 0x5840d6, 0xa840d6, 0x000001][ac as usize]
+    } else {
+        // the crowd: up to 6000 further aircraft, low and middle address bits both vary
+        0x200000 + (ac as u32 - 6) % 6000 * 0x401
+    }
 }
 
 /// Build the frame of a record. Every value is taken from a band owned by the aircraft.
@@ -107,13 +112,13 @@ pub fn frame_of(r: &Rec) -> Vec<u8> {
 }
 
 /// centre of the region aircraft `ac` reports airborne positions from
-pub fn region_centre(ac: u8) -> (f64, f64) {
+pub fn region_centre(ac: u16) -> (f64, f64) {
     // 20 km apart along a diagonal, all within 32 NM of the receiver reference of the end-to-end scenario (43.6, 1.45)
     let i = (ac % 6) as f64;
     (43.3 + 0.15 * i, 1.1 + 0.15 * i)
 }
 
-fn region_point(ac: u8, v: u64) -> (f64, f64) {
+fn region_point(ac: u16, v: u64) -> (f64, f64) {
     let c = region_centre(ac);
     // all within 1.5 km of the centre: two reports of one aircraft a few seconds apart pair up correctly only when
     // they are less than about 5 km apart (700 kt for 10 s is 3.6 km)
@@ -232,7 +237,9 @@ pub fn check_hist(ctx: &Ctx, pool: &Pool, hist: &[Rec]) -> Check {
     let keys: BTreeSet<String> = ans["keys"].as_array().map(|a| a.iter().filter_map(|x| x.as_str().map(|s| s.to_string())).collect()).unwrap_or_default();
     let want_keys: BTreeSet<String> = own.keys().cloned().collect();
     if keys != want_keys || table.len() != want_keys.len() {
-        return Err(fail("wrong-key-set", format!("table keys {keys:?} ({} entries), addresses seen {want_keys:?}", table.len())));
+        let missing: Vec<&String> = want_keys.difference(&keys).take(8).collect();
+        let extra: Vec<&String> = keys.difference(&want_keys).take(8).collect();
+        return Err(fail("wrong-key-set", if want_keys.len() <= 8 { format!("table keys {keys:?} ({} entries), addresses seen {want_keys:?}", table.len()) } else { format!("the table has {} entries for {} addresses seen; without an entry: {missing:?} ...; entries for addresses never seen: {extra:?}", table.len(), want_keys.len()) }));
     }
     for e in &table {
         let k = e["icao24"].as_str().unwrap_or("").to_string();
@@ -261,7 +268,9 @@ pub fn check_hist(ctx: &Ctx, pool: &Pool, hist: &[Rec]) -> Check {
     // non-interference: each aircraft alone gives the identical entry
     let nac = own.len();
     if nac >= 2 {
-        for (k, _) in own.iter() {
+        // every aircraft when there are few; eight of them, spread over the key order, in a crowd
+        let step = (nac / 8).max(1);
+        for (k, _) in own.iter().enumerate().filter(|(i, _)| nac <= 8 || i % step == 0).map(|(_, kv)| kv).take(if nac <= 8 { nac } else { 8 }) {
             let mine: Vec<(usize, &Rec)> = hist.iter().enumerate().filter(|(_, r)| format!("{:06x}", addr_of(r.ac)) == *k).collect();
             let alone = run_table(pool, &mine);
             if let Some(m) = alone["driver_crashed"].as_str() {
@@ -351,7 +360,7 @@ pub fn judge_e2e(ctx: &Ctx, sc: &crate::e2e::Scenario, out: &crate::e2e::Outcome
             continue;
         }
         if let (Some(la), Some(lo), Some(k)) = (v["latitude"].as_f64(), v["longitude"].as_f64(), v["icao24"].as_str()) {
-            if let Some(ac) = (0..6u8).find(|ac| format!("{:06x}", addr_of(*ac)) == k) {
+            if let Some(ac) = (0..6u16).find(|ac| format!("{:06x}", addr_of(*ac)) == k) {
                 let c = region_centre(ac);
                 let d = vcore::cprenc::haversine_m(c.0, c.1, la, lo);
                 if !(d <= 5_000.0) {
@@ -434,7 +443,7 @@ pub fn check_e2e(ctx: &Ctx, env: &crate::e2e::Env, hist: &[Rec], tag: &str) -> C
 fn history() -> impl Strategy<Value = Vec<Rec>> {
     // clocks: Unix time, or time relative to the start of a recording (from 0 s, a fraction of a second, 1000 s)
     let t0 = prop_oneof![4 => Just(1_700_000_000.0f64), 1 => Just(0.0f64), 1 => 0.0f64..1.0, 1 => Just(1000.0f64), 1 => Just(4_294_967_295.5f64)];
-    (1u8..=6, proptest::collection::vec((0u8..6, 0u8..KINDS.len() as u8, any::<u16>(), 0.0f64..3.0, 0u8..20), 1..120), t0).prop_map(|(nac, v, t0)| {
+    (1u16..=6, proptest::collection::vec((0u16..6, 0u8..KINDS.len() as u8, any::<u16>(), 0.0f64..3.0, 0u8..20), 1..120), t0).prop_map(|(nac, v, t0)| {
         let mut t: f64 = t0;
         v.into_iter()
             .map(|(ac, kind, val, dt, back)| {
@@ -454,18 +463,18 @@ fn history() -> impl Strategy<Value = Vec<Rec>> {
 /// Long histories: one or two busy aircraft among quiet ones that are heard once or a few times, over minutes to
 /// hours (counters, periodic clean-ups and bounded tables only show beyond a few hundred / thousand / 65 536 records).
 fn long_history() -> impl Strategy<Value = Vec<Rec>> {
-    (1100usize..5000, 2u8..=6, any::<u64>(), prop_oneof![Just(1_700_000_000.0f64), Just(0.0f64), Just(4_294_960_000.5f64)]).prop_map(|(n, nac, salt, t0)| long_hist_of(n, nac, salt, t0))
+    (1100usize..5000, 2u16..=6, any::<u64>(), prop_oneof![Just(1_700_000_000.0f64), Just(0.0f64), Just(4_294_960_000.5f64)]).prop_map(|(n, nac, salt, t0)| long_hist_of(n, nac, salt, t0))
 }
 
-pub fn long_hist_of(n: usize, nac: u8, salt: u64, t0: f64) -> Vec<Rec> {
+pub fn long_hist_of(n: usize, nac: u16, salt: u64, t0: f64) -> Vec<Rec> {
     let mut r = SplitMix::new(salt);
     let mut t = t0;
-    let busy = (r.below(nac as u64)) as u8;
+    let busy = (r.below(nac as u64)) as u16;
     // 94 %, 99 % or 99.8 % of the records belong to the busy aircraft; the others are heard now and then, or once
     let quiet_per_mille = [60u64, 10, 2][r.below(3) as usize];
     (0..n)
         .map(|_| {
-            let ac = if r.below(1000) >= quiet_per_mille { busy } else { r.below(nac as u64) as u8 };
+            let ac = if r.below(1000) >= quiet_per_mille { busy } else { r.below(nac as u64) as u16 };
             t += match r.below(100) {
                 0 => 61.0 + r.below(600) as f64,
                 1..=4 => 3.0 + r.below(20) as f64,
@@ -476,15 +485,35 @@ pub fn long_hist_of(n: usize, nac: u8, salt: u64, t0: f64) -> Vec<Rec> {
         .collect()
 }
 
+/// A crowd: hundreds to thousands of aircraft, each heard one to three times (plus the six regular ones).
+pub fn crowd_hist_of(nac: usize, salt: u64, t0: f64) -> Vec<Rec> {
+    let mut r = SplitMix::new(salt);
+    let mut t = t0;
+    let mut v = vec![];
+    for k in 0..nac {
+        for _ in 0..1 + r.below(3) {
+            v.push((r.next(), Rec { ac: if r.below(40) == 0 { r.below(6) as u16 } else { 6 + k as u16 }, kind: r.below(KINDS.len() as u64) as u8, val: r.next() as u16, ts: 0.0 }));
+        }
+    }
+    v.sort_by_key(|x| x.0);
+    v.into_iter()
+        .map(|(_, mut rec)| {
+            t += r.below(200) as f64 / 1000.0;
+            rec.ts = t;
+            rec
+        })
+        .collect()
+}
+
 pub fn run(ctx: &Ctx) {
-    ctx.set_rule("histories of 1-119 records from 1-6 aircraft (addresses sharing prefixes and suffixes) over 22 record kinds: DF17 identification / airborne / surface / ground velocity / airspeed / status / target state / operational status, DF18 airborne / surface / identification under each of the eight control fields, DF0, 4, 5, 11, 16, DF20 with BDS 2,0 / 4,0 / the 5,0+6,0 conflict payload, DF21 with BDS 5,0 / 6,0, and DF19/24 records that carry no address; every value comes from a band owned by its aircraft, positions are injected per record; one identification in five carries an unassigned 6-bit character; clocks start at Unix time, at 0 s, within the first second, at 1000 s or beyond 2^32 s; timestamps mostly increasing, sometimes equal or decreasing; long histories of 1100-5000 records (one busy aircraft among quiet ones heard once or a few times, gaps of minutes) and one of more than 65 536 records of one aircraft. Replayed through the real update_snapshot (hook H2) and read back as /all serialises it. Oracle: key set = addresses of the address-carrying records; count, firstseen, lastseen per key from independent bookkeeping; every non-null call sign, squawk, position, altitude, speed, angle, NACp of an entry occurs in the JSON of one of that aircraft's own records; the entry of each aircraft is identical when only its own records are fed. End to end: the distinct frames of such a history are served to the real jet1090 binary as a Beast TCP source and the table is read from its /all endpoint: key set, count per aircraft, seen times inside the run, and every value of an entry occurs in a record jet1090 printed for that aircraft; airborne positions are encoded from a region owned by the aircraft, and what the application attaches to an airborne report must lie in that region. Non-trivial = >= 2 aircraft and >= 3 record kinds; distinct by hash of the history.");
+    ctx.set_rule("histories of 1-119 records from 1-6 aircraft (addresses sharing prefixes and suffixes) over 22 record kinds: DF17 identification / airborne / surface / ground velocity / airspeed / status / target state / operational status, DF18 airborne / surface / identification under each of the eight control fields, DF0, 4, 5, 11, 16, DF20 with BDS 2,0 / 4,0 / the 5,0+6,0 conflict payload, DF21 with BDS 5,0 / 6,0, and DF19/24 records that carry no address; every value comes from a band owned by its aircraft, positions are injected per record; one identification in five carries an unassigned 6-bit character; clocks start at Unix time, at 0 s, within the first second, at 1000 s or beyond 2^32 s; timestamps mostly increasing, sometimes equal or decreasing; long histories of 1100-5000 records (one busy aircraft among quiet ones heard once or a few times, gaps of minutes) and one of more than 65 536 records of one aircraft; crowds of 260-5000 aircraft heard one to three times each (non-interference judged on eight of them). Replayed through the real update_snapshot (hook H2) and read back as /all serialises it. Oracle: key set = addresses of the address-carrying records; count, firstseen, lastseen per key from independent bookkeeping; every non-null call sign, squawk, position, altitude, speed, angle, NACp of an entry occurs in the JSON of one of that aircraft's own records; the entry of each aircraft is identical when only its own records are fed. End to end: the distinct frames of such a history are served to the real jet1090 binary as a Beast TCP source and the table is read from its /all endpoint: key set, count per aircraft, seen times inside the run, and every value of an entry occurs in a record jet1090 printed for that aircraft; airborne positions are encoded from a region owned by the aircraft, and what the application attaches to an airborne report must lie in that region. Non-trivial = >= 2 aircraft and >= 3 record kinds; distinct by hash of the history.");
     ctx.assume("positions are attached by decode_position before update_snapshot in the application; the scenario injects them so that each record carries a unique value");
     ctx.assume("registration and typecode come from the aircraft database / address heuristics, not from records: outside the provenance check");
     let pool = Pool::new(16);
     // every kind must decode and every kind must leave its trace (generator health)
     let mut seen_kinds = BTreeSet::new();
     for kind in 0..KINDS.len() as u8 {
-        for ac in 0..6u8 {
+        for ac in 0..6u16 {
             let r = Rec { ac, kind, val: 77 + kind as u16, ts: 1_700_000_000.0 };
             let f = frame_of(&r);
             if Message::try_from(f.as_slice()).is_ok() {
@@ -511,6 +540,15 @@ pub fn run(ctx: &Ctx) {
         run_prop(ctx, &format!("long-{s}"), n / shards, long_history(), |h| {
             ctx.class("long history (1100-5000 records, a busy aircraft among quiet ones, minutes to hours)");
             check_hist(ctx, &pool, h)
+        });
+    });
+    // crowds: 260-5000 aircraft heard one to three times each
+    let n = ctx.tier.pick(32u32, 320u32);
+    (0..shards).into_par_iter().for_each(|s| {
+        run_prop(ctx, &format!("crowd-{s}"), n / shards, (prop_oneof![260usize..700, 700usize..5000], any::<u64>(), prop_oneof![Just(1_700_000_000.0f64), Just(0.0f64)]), |(nac, salt, t0)| {
+            ctx.class(if *nac > 1024 { "crowd of more than 1024 aircraft" } else { "crowd of 260-1024 aircraft" });
+            let h = crowd_hist_of(*nac, *salt, *t0);
+            check_hist(ctx, &pool, &h).map_err(|e| Failure::new(e.signature, e.detail.chars().take(700).collect::<String>(), json!({"kind": "crowd", "aircraft": nac, "salt": salt.to_string(), "t0": t0})))
         });
     });
     {
@@ -552,6 +590,13 @@ pub fn replay(ctx: &Ctx, v: &Value) {
         ctx.judge(replay_e2e(ctx, &env, &crate::e2e::scenario_of(&v["scenario"]), v, "c12-replay"));
         return;
     }
+    if v["kind"] == "crowd" {
+        let pool = Pool::new(1);
+        let salt = v["salt"].as_str().and_then(|s| s.parse::<u64>().ok()).unwrap_or(0);
+        let h = crowd_hist_of(v["aircraft"].as_u64().unwrap_or(300) as usize, salt, v["t0"].as_f64().unwrap_or(0.0));
+        ctx.judge(check_hist(ctx, &pool, &h));
+        return;
+    }
     if v["kind"] == "very-long" {
         let pool = Pool::new(1);
         let salt = v["salt"].as_str().and_then(|s| s.parse::<u64>().ok()).unwrap_or(0);
@@ -563,6 +608,6 @@ pub fn replay(ctx: &Ctx, v: &Value) {
         return;
     }
     let pool = Pool::new(1);
-    let hist: Vec<Rec> = v["history"].as_array().map(|a| a.iter().map(|x| Rec { ac: x[0].as_u64().unwrap_or(0) as u8, kind: x[1].as_u64().unwrap_or(0) as u8, val: x[2].as_u64().unwrap_or(0) as u16, ts: x[3].as_f64().unwrap_or(0.0) }).collect()).unwrap_or_default();
+    let hist: Vec<Rec> = v["history"].as_array().map(|a| a.iter().map(|x| Rec { ac: x[0].as_u64().unwrap_or(0) as u16, kind: x[1].as_u64().unwrap_or(0) as u8, val: x[2].as_u64().unwrap_or(0) as u16, ts: x[3].as_f64().unwrap_or(0.0) }).collect()).unwrap_or_default();
     ctx.judge(check_hist(ctx, &pool, &hist));
 }
